@@ -56,6 +56,19 @@ func vRetryReads(c *Conn, bufSize int, g *vGot) {
 func vReadLoop(c *Conn, bufSize int, max int) vGot {
 	var g vGot
 	for i := 0; i < max; i++ {
+		if vParam("readapi", 0) == 1 {
+			// the application uses Conn.Read: what it returns together with an error is what was handed to the caller
+			typ, b, err := c.Read(vBG)
+			if err != nil {
+				g.tail = b
+				g.err = err
+				vRetryReads(c, bufSize, &g)
+				return g
+			}
+			g.types = append(g.types, typ)
+			g.msgs = append(g.msgs, b)
+			continue
+		}
 		typ, r, err := c.Reader(vBG)
 		if err != nil {
 			g.err = err
